@@ -1727,10 +1727,10 @@ class DispVertex:
     y: int
 
     normal: Vec = attrs.field(factory=Vec, validator=attrs.validators.instance_of(Vec))
-    distance: float = 0
+    distance: float = attrs.field(default=0.0, converter=float)
     offset: Vec = attrs.field(factory=Vec, validator=attrs.validators.instance_of(Vec))
     offset_norm: Vec = attrs.field(factory=Vec, validator=attrs.validators.instance_of(Vec))
-    alpha: float = 0.0
+    alpha: float = attrs.field(default=0.0, converter=float)
     # The pair of triangle tags for the quad in the +ve direction
     # from us. This means the last row/column's triangles are ignored.
     triangle_a: TriangleTag = TriangleTag.FLAT
@@ -2274,7 +2274,7 @@ class Side:
             f'{ind}\t\t"power" "{self.disp_power}"\n'
             f'{ind}\t\t"startposition" "[{self.disp_pos}]"\n'
             f'{ind}\t\t"flags" "{_DISP_COLL_TO_FLAG[self.disp_flags & DispFlag.COLL_ALL]}"\n'
-            f'{ind}\t\t"elevation" "{self.disp_elevation}"\n'
+            f'{ind}\t\t"elevation" "{float(self.disp_elevation)}"\n'
             f'{ind}\t\t"subdiv" "{"1" if DispFlag.SUBDIV in self.disp_flags else "0"}"\n'
         )
 
